@@ -55,6 +55,12 @@ Seeds == <<
             Stmt("st2", {SC("neighbor", "ns2", "any")}, {Act("large", "add", 0, 0, {"65002:2:2"}, "")}, "accept")>>),
      Asg("export", "accept"),
      Ev(Rt(Px, "local", "192.0.2.1", <<>>, <<>>, <<>>, <<"65001:1:1">>, "valid"), "export", "A", "export", "C")>>],
+  \* KF-C10-delpol-assigned
+  [name |-> "delpol-assigned", steps |-> <<
+     Pol1(<<Stmt("st1", {Cond("rpki", "", "valid", "", 0, {})}, {}, "reject")>>),
+     Asg("import", "accept"),
+     [op |-> "DelPol", name |-> "p1", all |-> TRUE, preserve |-> FALSE, stmts |-> <<>>],
+     Ev(Rt(Px, "A", "192.0.2.1", <<65001>>, <<>>, <<>>, <<>>, "valid"), "import", "A", "export", "B")>>],
   \* KF-C10-api-origin-cond, KF-C10-api-commaction-type (read-back through the API)
   [name |-> "api-readback", steps |-> <<
      [op |-> "AddStmt", stmt |-> Stmt("st1", {Cond("origin", "", "", "", 1, {})}, {Act("origin", "", 2, 0, {}, "")}, "accept")],
